@@ -9,6 +9,7 @@ import (
 	"strings"
 	"sync"
 	"testing"
+	"time"
 
 	"github.com/aperturerobotics/util/broadcast"
 	"pgregory.net/rapid"
@@ -27,6 +28,8 @@ type Op struct {
 	Via     string `json:"via,omitempty"`     // update: hold | try | async
 	Peek    string `json:"peek,omitempty"`    // update: "" | before | after (take a wait channel inside the same section)
 	Pre     bool   `json:"pre,omitempty"`     // wait: context already cancelled
+	Dl      int    `json:"dl,omitempty"`      // wait: deadline context (1 = already expired, 2 = expires after 10ms of virtual time)
+	Twice   bool   `json:"twice,omitempty"`   // update: broadcast(); getWaitCh(); broadcast() inside one critical section
 	Pick    int    `json:"pick,omitempty"`
 }
 
@@ -37,7 +40,7 @@ type Case struct {
 }
 
 func genCase(t *rapid.T) Case {
-	kinds := []string{"wait", "wait", "wait", "update", "update", "update", "spurious", "peek", "cancel"}
+	kinds := []string{"wait", "wait", "wait", "update", "update", "update", "spurious", "peek", "cancel", "advance"}
 	genOp := rapid.Custom(func(t *rapid.T) Op {
 		op := Op{K: rapid.SampledFrom(kinds).Draw(t, "k")}
 		switch op.K {
@@ -51,7 +54,11 @@ func genCase(t *rapid.T) Case {
 				}
 			}
 			op.Pre = rapid.IntRange(0, 11).Draw(t, "pre") == 0
+			if rapid.IntRange(0, 5).Draw(t, "hasdl") == 0 {
+				op.Dl = rapid.IntRange(1, 2).Draw(t, "dl")
+			}
 		case "update":
+			op.Twice = rapid.IntRange(0, 5).Draw(t, "twice") == 0
 			op.Via = rapid.SampledFrom([]string{"hold", "hold", "try", "async"}).Draw(t, "via")
 			op.Peek = rapid.SampledFrom([]string{"", "", "before", "after"}).Draw(t, "peek")
 		case "cancel":
@@ -76,6 +83,8 @@ type waiter struct {
 	lastTrue  bool  // last predicate evaluation returned true
 	lastErr   error // error returned by the last predicate evaluation
 	evals     int
+	deadline  bool // its context has a deadline 10ms of virtual time after it was issued
+	expired   bool
 }
 
 type handed struct {
@@ -182,6 +191,15 @@ func body(c *sched.Ctl, cs Case, v *ev.Verdict) {
 			waiters = append(waiters, w)
 			hm.Unlock()
 			ctx, cancel := context.WithCancel(context.Background())
+			switch op.Dl {
+			case 1:
+				// a deadline that has already passed: Err() is DeadlineExceeded, Wait must still say Canceled
+				ctx, cancel = context.WithDeadline(context.Background(), time.Now().Add(-time.Millisecond))
+				w.cancelled = true
+			case 2:
+				ctx, cancel = context.WithTimeout(context.Background(), 10*time.Millisecond)
+				w.deadline = true
+			}
 			w.cancel = cancel
 			if op.Pre {
 				cancel()
@@ -240,6 +258,15 @@ func body(c *sched.Ctl, cs Case, v *ev.Verdict) {
 					hm.Lock()
 					bcount++
 					hm.Unlock()
+					if o.Twice {
+						// a second broadcast in the same section, with a wait channel taken in between
+						ch := getWaitCh()
+						broadcast()
+						hm.Lock()
+						chans = append(chans, handed{ch, bcount, label + "(between its two broadcasts)"})
+						bcount++
+						hm.Unlock()
+					}
 					if o.Peek == "after" {
 						ch := getWaitCh()
 						hm.Lock()
@@ -273,6 +300,17 @@ func body(c *sched.Ctl, cs Case, v *ev.Verdict) {
 					hm.Unlock()
 				})
 			})
+		case "advance":
+			c.Settle(true)
+			// every deadline set so far (10ms after its waiter was issued) expires during this sleep
+			hm.Lock()
+			for _, w := range waiters {
+				if w.deadline && !w.expired {
+					w.expired, w.cancelled = true, true
+				}
+			}
+			hm.Unlock()
+			time.Sleep(10 * time.Millisecond)
 		case "cancel":
 			hm.Lock()
 			var el []*waiter
